@@ -79,6 +79,11 @@ def mdp_specs(draw, max_states=10, max_actions=4, max_events=4, min_states=1, al
                 ph = (s % period + 1) % period
                 cands = [t for t in range(nS) if t % period == ph] or [s]
                 n_e = [cands[draw(st.integers(0, len(cands) - 1))] for _ in range(nE)]
+                # the first state of the next phase is a hub of that phase: one recurrent class under every policy
+                j = draw(st.integers(0, nE - 1))
+                n_e[j] = cands[0]
+                if w[j] == 0:
+                    w[j] = 1
             else:
                 n_e = [draw(st.integers(0, nS - 1)) for _ in range(nE)]
             if sticky:
